@@ -1033,6 +1033,12 @@ class Interp:
                 if hasattr(src, 'm_positions_eq'):
                     return src.m_positions_eq(self, self.eval(c.comparators[0], env, module))
             return NOTFOUND
+        # [x for x in L] over an abstract label list: a fresh mutable copy (same length, positions and counts)
+        if (isinstance(g.target, ast.Name) and isinstance(e.elt, ast.Name) and e.elt.id == g.target.id and not g.ifs and len(e.generators) == 1):
+            src = self.eval(g.iter, env, module)
+            if hasattr(src, 'm_mutable_copy') and src.concrete_len(self) is None:
+                return src.m_mutable_copy(self)
+            return NOTFOUND
         if not (isinstance(g.target, ast.Name) and isinstance(e.elt, ast.Name) and e.elt.id == g.target.id and len(g.ifs) == 1):
             return NOTFOUND
         c = g.ifs[0]
